@@ -57,7 +57,26 @@ inductive S
   | defeatIf (c : B) (k : S)
   /-- `try { body } undo { handler }` -/
   | tryUndo (body handler : S) (k : S)
+  /-- `return e;` in an `int` function -/
+  | retE (e : E)
+  /-- `g(args);` — a call of a user function as a statement (any result is dropped) -/
+  | callS (g : String) (args : List E) (k : S)
+  /-- `int x = g(args);` -/
+  | declCall (x : String) (g : String) (args : List E) (k : S)
+  /-- `x = g(args);` -/
+  | assignCall (x : String) (g : String) (args : List E) (k : S)
   deriving Repr, Inhabited
+
+/-- a user function: `int` parameters, result `int` or `empty` -/
+structure FDecl where
+  name : String
+  params : List String
+  body : S
+  deriving Repr, Inhabited
+
+/-- code addresses of the functions of the program -/
+abbrev FAddr := List (String × Nat)
+def faddr (fa : FAddr) (g : String) : Nat := (fa.lookup g).getD 0
 
 /-! ## compile-time context -/
 structure Cx where
@@ -266,6 +285,13 @@ def lenGV (ck : Bool) (e : E) : Nat := lenE e ck false + (match e with | .var _ 
 
 def lenWrite (ck : Bool) (e : E) : Nat := 1 + lenPush ck e + 3 + 1
 
+def lenArgs (ck : Bool) : List E → Nat
+  | [] => 0
+  | e :: es => lenPush ck e + lenArgs ck es
+
+/-- a call of a user function: return address, arguments, frame switch, jump, frame restore -/
+def lenCall (ck : Bool) (args : List E) : Nat := 1 + lenArgs ck args + 3 + 1
+
 def lenS (ck : Bool) : S → Nat
   | .nil => 0
   | .ret => 3
@@ -281,6 +307,10 @@ def lenS (ck : Bool) : S → Nat
   | .defeat k => 1 + lenS ck k
   | .defeatIf c k => lenD ck c + lenS ck k
   | .tryUndo body handler k => 1 + lenS ck body + 2 + lenS ck handler + lenS ck k
+  | .retE e => lenGV ck e + 4
+  | .callS _ args k => lenCall ck args + lenS ck k
+  | .declCall _ _ args k => lenCall ck args + lenS ck k
+  | .assignCall _ _ args k => lenCall ck args + 2 + lenS ck k
 
 /-- the call `write(e)` for an `int` argument (`eval_func_call`, general path, callee `write_int`) -/
 def cWrite (cx : Cx) (Γ : Gam) (pc o : Nat) (e : E) : List Instr :=
@@ -290,47 +320,74 @@ def cWrite (cx : Cx) (Γ : Gam) (pc o : Nat) (e : E) : List Instr :=
     [.alu .add cx.fp (.st cx.fp) (cx.negImm o), .j (.imm (cx.B + off_write_int)), .halt,
      .alu .add cx.fp (.st cx.fp) (.imm (wrapI cx.M o))]
 
-def cS (cx : Cx) : (Γ : Gam) → (pc o : Nat) → S → List Instr
+/-- push the arguments of a call, left to right, each into the next word of the frame -/
+def cArgs (cx : Cx) (Γ : Gam) : (pc o : Nat) → List E → List Instr
+  | _, _, [] => []
+  | pc, o, e :: es =>
+    let c := pushE cx Γ pc o e
+    c ++ cArgs cx Γ (pc + c.length) (o + cx.w) es
+
+/-- the call `g(args)` (`eval_func_call`, general path): afterwards an `int` result is in the slot at `o + w` -/
+def cCall (cx : Cx) (fa : FAddr) (Γ : Gam) (pc o : Nat) (g : String) (args : List E) : List Instr :=
+  let push := cArgs cx Γ (pc + 1) (o + cx.w) args
+  let endCall := pc + 1 + push.length + 3
+  [stSlot cx (o + cx.w) (.imm endCall)] ++ push ++
+    [.alu .add cx.fp (.st cx.fp) (cx.negImm o), .j (.imm (faddr fa g)), .halt,
+     .alu .add cx.fp (.st cx.fp) (.imm (wrapI cx.M o))]
+
+def cS (cx : Cx) (fa : FAddr) : (Γ : Gam) → (pc o : Nat) → S → List Instr
   | _, _, _, .nil => []
   | _, _, _, .ret => [ldSlot cx cx.r1 cx.w, .j (.st cx.r1), .halt]
   | Γ, pc, o, .decl x e k =>
     let c := pushE cx Γ pc o e
-    c ++ cS cx ((x, o + cx.w) :: Γ) (pc + c.length) (o + cx.w) k
+    c ++ cS cx fa ((x, o + cx.w) :: Γ) (pc + c.length) (o + cx.w) k
   | Γ, pc, o, .assign x e k =>
     let (c, v) := gV cx Γ pc o cx.r1 e
     let c := c ++ [stSlot cx (look Γ x) (v.arg cx)]
-    c ++ cS cx Γ (pc + c.length) o k
+    c ++ cS cx fa Γ (pc + c.length) o k
   | Γ, pc, o, .write e k =>
     let c := cWrite cx Γ pc o e
-    c ++ cS cx Γ (pc + c.length) o k
+    c ++ cS cx fa Γ (pc + c.length) o k
   | Γ, pc, o, .writeln (some e) k =>
     let c := cWrite cx Γ pc o e ++ [.yld (.imm 10)]
-    c ++ cS cx Γ (pc + c.length) o k
-  | Γ, pc, o, .writeln none k => .yld (.imm 10) :: cS cx Γ (pc + 1) o k
-  | Γ, pc, o, .putc ch k => .yld (.imm (ch % cx.M)) :: cS cx Γ (pc + 1) o k
+    c ++ cS cx fa Γ (pc + c.length) o k
+  | Γ, pc, o, .writeln none k => .yld (.imm 10) :: cS cx fa Γ (pc + 1) o k
+  | Γ, pc, o, .putc ch k => .yld (.imm (ch % cx.M)) :: cS cx fa Γ (pc + 1) o k
   | Γ, pc, o, .block b k =>
-    let c := cS cx Γ pc o b
-    c ++ cS cx Γ (pc + c.length) o k
+    let c := cS cx fa Γ pc o b
+    c ++ cS cx fa Γ (pc + c.length) o k
   | Γ, pc, o, .ifb c t e k =>
     let nC := lenB cx.checked c 0 2 false true
     let elseA := pc + nC + lenS cx.checked t + 2
     let endA := elseA + lenS cx.checked e
-    cB cx Γ pc o c [] (goto elseA) ++ cS cx Γ (pc + nC) o t ++ goto endA ++ cS cx Γ elseA o e
-      ++ cS cx Γ endA o k
+    cB cx Γ pc o c [] (goto elseA) ++ cS cx fa Γ (pc + nC) o t ++ goto endA ++ cS cx fa Γ elseA o e
+      ++ cS cx fa Γ endA o k
   | Γ, pc, o, .loop c body cont k =>
     let nC := lenB cx.checked c 0 2 false true
     let contA := pc + nC + lenS cx.checked body
     let brkA := contA + lenS cx.checked cont + 2
-    cB cx Γ pc o c [] (goto brkA) ++ cS cx Γ (pc + nC) o body ++ cS cx Γ contA o cont ++ goto pc
-      ++ cS cx Γ brkA o k
-  | Γ, pc, o, .defeat k => .halt :: cS cx Γ (pc + 1) o k
+    cB cx Γ pc o c [] (goto brkA) ++ cS cx fa Γ (pc + nC) o body ++ cS cx fa Γ contA o cont ++ goto pc
+      ++ cS cx fa Γ brkA o k
+  | Γ, pc, o, .defeat k => .halt :: cS cx fa Γ (pc + 1) o k
   | Γ, pc, o, .defeatIf c k =>
     let d := cD cx Γ pc o c
-    d ++ cS cx Γ (pc + d.length) o k
+    d ++ cS cx fa Γ (pc + d.length) o k
   | Γ, pc, o, .tryUndo body handler k =>
     let hA := pc + 1 + lenS cx.checked body + 2
     let endA := hA + lenS cx.checked handler
-    [.j (.imm hA)] ++ cS cx Γ (pc + 1) o body ++ goto endA ++ cS cx Γ hA o handler ++ cS cx Γ endA o k
+    [.j (.imm hA)] ++ cS cx fa Γ (pc + 1) o body ++ goto endA ++ cS cx fa Γ hA o handler ++ cS cx fa Γ endA o k
+  | Γ, pc, o, .retE e =>
+    let (c, v) := gV cx Γ pc o cx.r0 e
+    c ++ [ldSlot cx cx.r1 cx.w, stSlot cx cx.w (v.arg cx), .j (.st cx.r1), .halt]
+  | Γ, pc, o, .callS g args k =>
+    let c := cCall cx fa Γ pc o g args
+    c ++ cS cx fa Γ (pc + c.length) o k
+  | Γ, pc, o, .declCall x g args k =>
+    let c := cCall cx fa Γ pc o g args
+    c ++ cS cx fa ((x, o + cx.w) :: Γ) (pc + c.length) (o + cx.w) k
+  | Γ, pc, o, .assignCall x g args k =>
+    let c := cCall cx fa Γ pc o g args ++ [ldSlot cx cx.r1 (o + cx.w), stSlot cx (look Γ x) (.st cx.r1)]
+    c ++ cS cx fa Γ (pc + c.length) o k
 
 /-! ## the stack-check constant (`Tracker`): the peak of `stack.static_size` over the function -/
 def pkE (w : Nat) : (o : Nat) → E → Bool → Nat
@@ -358,6 +415,12 @@ def wiExcess (w : Nat) : Nat := ((8 * w - 1) * 30103 / 100000 + 1) - w
 def pkPush (w o : Nat) (e : E) : Nat := max (pkE w o e true) (o + w)
 def pkWrite (w o : Nat) (e : E) : Nat := max (pkPush w (o + w) e) (o + 2 * w + wiExcess w)
 
+def pkArgs (w : Nat) : (o : Nat) → List E → Nat
+  | o, [] => o
+  | o, e :: es => max (pkPush w o e) (pkArgs w (o + w) es)
+
+def pkCall (w o : Nat) (args : List E) : Nat := max (o + w) (pkArgs w (o + w) args)
+
 def pkS (w : Nat) : (o : Nat) → S → Nat
   | o, .nil => o
   | o, .ret => o
@@ -373,6 +436,10 @@ def pkS (w : Nat) : (o : Nat) → S → Nat
   | o, .defeat k => pkS w o k
   | o, .defeatIf c k => max (pkB w o c) (pkS w o k)
   | o, .tryUndo body handler k => max (max (pkS w o body) (pkS w o handler)) (pkS w o k)
+  | o, .retE e => pkE w o e false
+  | o, .callS _ args k => max (pkCall w o args) (pkS w o k)
+  | o, .declCall _ _ args k => max (pkCall w o args) (pkS w (o + w) k)
+  | o, .assignCall _ _ args k => max (pkCall w o args) (pkS w o k)
 
 /-! ## the whole program -/
 structure Config where
@@ -381,28 +448,59 @@ structure Config where
   checked : Bool
   deriving Repr
 
+/-- a core program: the entry point `@is_you(params)` and the other functions in the order in
+which `hidc` emits them (first reference, breadth first) -/
+structure CProg where
+  params : List String
+  body : S
+  funs : List FDecl
+  deriving Repr, Inhabited
+
 def prologueLen (ck : Bool) : Nat := if ck then 5 else 0
 
 def funcLen (ck : Bool) (body : S) : Nat := prologueLen ck + lenS ck body
 
-def mkCx (cf : Config) (body : S) : Cx := { w := cf.w, checked := cf.checked, B := funcLen cf.checked body }
-
-/-- frame offsets of the `int` parameters of the entry point: the return address is at `w`, the
-parameters follow in order -/
-def paramGam (w : Nat) : (i : Nat) → List String → Gam
+/-- code addresses: each function right behind the previous one -/
+def layout (ck : Bool) : Nat → List FDecl → FAddr
   | _, [] => []
-  | i, x :: xs => (x, (i + 2) * w) :: paramGam w (i + 1) xs
+  | a, fd :: fds => (fd.name, a) :: layout ck (a + funcLen ck fd.body) fds
 
-/-- stack offset at the start of the body: return address and parameters are reserved -/
+def funsLen (ck : Bool) : List FDecl → Nat
+  | [] => 0
+  | fd :: fds => funcLen ck fd.body + funsLen ck fds
+
+/-- length of all function code = address of the runtime library -/
+def progLen (ck : Bool) (pr : CProg) : Nat := funcLen ck pr.body + funsLen ck pr.funs
+
+def progFA (ck : Bool) (pr : CProg) : FAddr := layout ck (funcLen ck pr.body) pr.funs
+
+def mkCx (cf : Config) (pr : CProg) : Cx := { w := cf.w, checked := cf.checked, B := progLen cf.checked pr }
+
+/-- frame offsets of the `int` parameters of a function, starting at offset `o` (the return
+address is at `w`, so the first parameter is at `2w`), in order -/
+def paramGam (w : Nat) : (o : Nat) → List String → Gam
+  | _, [] => []
+  | o, x :: xs => (x, o) :: paramGam w (o + w) xs
+
+/-- stack offset at the start of a function body: return address and parameters are reserved -/
 def entryOff (w : Nat) (params : List String) : Nat := (params.length + 1) * w
 
-def funcCode (cf : Config) (params : List String) (body : S) : List Instr :=
-  let cx := mkCx cf body
-  (if cf.checked then
-    [.j (.imm 5), .alu .sub cx.r1 (.st cx.fp) (.st 0),
-     .hcond .hgeu (.st cx.r1) (.imm (pkS cf.w (entryOff cf.w params) body % cx.M)),
+/-- one function placed at `base`: the stack check (checked builds), then the body -/
+def funcCode (cx : Cx) (fa : FAddr) (base : Nat) (params : List String) (body : S) : List Instr :=
+  (if cx.checked then
+    [.j (.imm (base + 5)), .alu .sub cx.r1 (.st cx.fp) (.st 0),
+     .hcond .hgeu (.st cx.r1) (.imm (pkS cx.w (entryOff cx.w params) body % cx.M)),
      .j (.imm (cx.B + off_stack_overflow)), .halt]
-   else []) ++ cS cx (paramGam cf.w 0 params) (prologueLen cf.checked) (entryOff cf.w params) body
+   else []) ++ cS cx fa (paramGam cx.w (2 * cx.w) params) (base + prologueLen cx.checked) (entryOff cx.w params) body
+
+def funsCode (cx : Cx) (fa : FAddr) : Nat → List FDecl → List Instr
+  | _, [] => []
+  | a, fd :: fds => funcCode cx fa a fd.params fd.body ++ funsCode cx fa (a + funcLen cx.checked fd.body) fds
+
+def progCode (cf : Config) (pr : CProg) : List Instr :=
+  let cx := mkCx cf pr
+  let fa := progFA cf.checked pr
+  funcCode cx fa 0 pr.params pr.body ++ funsCode cx fa (funcLen cf.checked pr.body) pr.funs
 
 /-- store the (already parsed) command-line arguments into the entry frame -/
 def writeArgs (w F : Nat) : Mem → Nat → List Int → Mem
@@ -411,17 +509,17 @@ def writeArgs (w F : Nat) : Mem → Nat → List Int → Mem
 
 /-- the state section `gen_lines` emits: `ap fp r0 r1 r2`, the stack, the entry frame (arguments,
 then the return address of `@is_you`, which is `all_is_win`); everything else is zero -/
-def initMem (cf : Config) (args : List Int) (body : S) : Mem :=
+def initMem (cf : Config) (args : List Int) (pr : CProg) : Mem :=
   let w := cf.w
   let stackEnd := 5 * w + cf.stackWords * w + args.length * w + w
   writeArgs w stackEnd
     ((((⟨Array.replicate stackEnd 0⟩ : Mem).writeLE 0 w (5 * w)).writeLE w w stackEnd).writeLE (stackEnd - w) w
-      (funcLen cf.checked body + off_all_is_win)) 0 args
+      (progLen cf.checked pr + off_all_is_win)) 0 args
 
-def coreProg (cf : Config) (params : List String) (body : S) : Prog :=
-  { w := cf.w, code := (funcCode cf params body ++ stdlibCode cf.w (funcLen cf.checked body)).toArray, const := ⟨#[]⟩ }
+def coreProg (cf : Config) (pr : CProg) : Prog :=
+  { w := cf.w, code := (progCode cf pr ++ stdlibCode cf.w (progLen cf.checked pr)).toArray, const := ⟨#[]⟩ }
 
-def coreInit (cf : Config) (args : List Int) (body : S) : St := ⟨0, initMem cf args body⟩
+def coreInit (cf : Config) (args : List Int) (pr : CProg) : St := ⟨0, initMem cf args pr⟩
 
 /-! ## source semantics (word values are the machine representation `0 ≤ v < 256^w`) -/
 abbrev Env := String → Nat
@@ -450,98 +548,164 @@ def evalB (M n : Nat) (env : Env) : B → Option Bool
     let a ← evalB M n env l
     if a then pure true else evalB M n env r
 
-inductive Res | norm | returned | div0 | defeat
+inductive Res | norm | returned | div0 | defeat | retv (v : Nat)
   deriving DecidableEq, Repr, Inhabited
 
 def upd (env : Env) (x : String) (v : Nat) : Env := fun y => if y = x then v else env y
 
-/-- `none` = out of fuel.  Output events only; the terminal flags are added by `runCore`. -/
-def exec (M n : Nat) : (fuel : Nat) → Env → S → Option (Env × List Ev × Res)
-  | 0, _, _ => none
-  | _ + 1, env, .nil => some (env, [], .norm)
-  | _ + 1, env, .ret => some (env, [], .returned)
-  | f + 1, env, .decl x e k =>
+def evalArgs (M n : Nat) (env : Env) : List E → Option (List Nat)
+  | [] => some []
+  | e :: es => do
+    let v ← evalE M n env e
+    let vs ← evalArgs M n env es
+    pure (v :: vs)
+
+/-- the environment a function starts in: its parameters bound to the (word) values passed -/
+def bindEnv : List String → List Nat → Env
+  | x :: xs, v :: vs => upd (bindEnv xs vs) x v
+  | _, _ => fun _ => 0
+
+/-- what a call does, given the executor `ex` for the callee's body (one unit of fuel less):
+`none` = no conclusion (unknown function, arity mismatch, the callee does not return, out of fuel, or
+the stack would not hold the callee's frame: `room` is the number of bytes between the bottom of the
+stack and the caller's frame pointer, `o` the caller's stack offset at the call);
+otherwise the events of the call, whether a division by zero ended the run (`true`), and the
+value returned. -/
+def callWith (M n : Nat) (fns : List FDecl) (w : Nat)
+    (ex : (room o : Nat) → Env → S → Option (Env × List Ev × Res))
+    (room o : Nat) (env : Env) (g : String) (args : List E) : Option (List Ev × Bool × Option Nat) :=
+  match evalArgs M n env args with
+  | none => some ([], true, none)
+  | some vs =>
+    match fns.find? (fun fd => fd.name == g) with
+    | none => none
+    | some fd =>
+      if vs.length ≠ fd.params.length ∨ room < o ∨ room - o < pkS w (entryOff w fd.params) fd.body then none else
+      match ex (room - o) (entryOff w fd.params) (bindEnv fd.params vs) fd.body with
+      | some (_, tr, .returned) => some (tr, false, none)
+      | some (_, tr, .retv v) => some (tr, false, some v)
+      | some (_, tr, .div0) => some (tr, true, none)
+      | _ => none
+
+/-- `none` = no conclusion: out of fuel, or out of stack (see `callWith`).  Output events only; the
+terminal flags are added by `runCore`.  `room` and `o` mirror the compiler's stack accounting
+(they only matter for calls). -/
+def exec (M n : Nat) (fns : List FDecl) (w : Nat) :
+    (fuel : Nat) → (room o : Nat) → Env → S → Option (Env × List Ev × Res)
+  | 0, _, _, _, _ => none
+  | _ + 1, _, _, env, .nil => some (env, [], .norm)
+  | _ + 1, _, _, env, .ret => some (env, [], .returned)
+  | f + 1, room, o, env, .decl x e k =>
     match evalE M n env e with
     | none => some (env, [], .div0)
-    | some v => exec M n f (upd env x v) k
-  | f + 1, env, .assign x e k =>
+    | some v => exec M n fns w f room (o + w) (upd env x v) k
+  | f + 1, room, o, env, .assign x e k =>
     match evalE M n env e with
     | none => some (env, [], .div0)
-    | some v => exec M n f (upd env x v) k
-  | f + 1, env, .write e k =>
+    | some v => exec M n fns w f room o (upd env x v) k
+  | f + 1, room, o, env, .write e k =>
     match evalE M n env e with
     | none => some (env, [], .div0)
     | some v => do
-      let (env', tr, r) ← exec M n f env k
+      let (env', tr, r) ← exec M n fns w f room o env k
       pure (env', outs (decimalW M v) ++ tr, r)
-  | f + 1, env, .writeln (some e) k =>
+  | f + 1, room, o, env, .writeln (some e) k =>
     match evalE M n env e with
     | none => some (env, [], .div0)
     | some v => do
-      let (env', tr, r) ← exec M n f env k
+      let (env', tr, r) ← exec M n fns w f room o env k
       pure (env', outs (decimalW M v) ++ [Ev.out 10] ++ tr, r)
-  | f + 1, env, .writeln none k => do
-    let (env', tr, r) ← exec M n f env k
+  | f + 1, room, o, env, .writeln none k => do
+    let (env', tr, r) ← exec M n fns w f room o env k
     pure (env', Ev.out 10 :: tr, r)
-  | f + 1, env, .putc c k => do
-    let (env', tr, r) ← exec M n f env k
+  | f + 1, room, o, env, .putc c k => do
+    let (env', tr, r) ← exec M n fns w f room o env k
     pure (env', Ev.out (c % M % 256) :: tr, r)
-  | f + 1, env, .block b k => do
-    let (env1, tr1, r1) ← exec M n f env b
+  | f + 1, room, o, env, .block b k => do
+    let (env1, tr1, r1) ← exec M n fns w f room o env b
     if r1 = .norm then
-      let (env2, tr2, r2) ← exec M n f env1 k
+      let (env2, tr2, r2) ← exec M n fns w f room o env1 k
       pure (env2, tr1 ++ tr2, r2)
     else pure (env1, tr1, r1)
-  | f + 1, env, .ifb c t e k =>
+  | f + 1, room, o, env, .ifb c t e k =>
     match evalB M n env c with
     | none => some (env, [], .div0)
     | some cv => do
-      let (env1, tr1, r1) ← exec M n f env (if cv then t else e)
+      let (env1, tr1, r1) ← exec M n fns w f room o env (if cv then t else e)
       if r1 = .norm then
-        let (env2, tr2, r2) ← exec M n f env1 k
+        let (env2, tr2, r2) ← exec M n fns w f room o env1 k
         pure (env2, tr1 ++ tr2, r2)
       else pure (env1, tr1, r1)
-  | f + 1, env, .loop c body cont k =>
+  | f + 1, room, o, env, .loop c body cont k =>
     match evalB M n env c with
     | none => some (env, [], .div0)
-    | some false => exec M n f env k
+    | some false => exec M n fns w f room o env k
     | some true => do
-      let (env1, tr1, r1) ← exec M n f env body
+      let (env1, tr1, r1) ← exec M n fns w f room o env body
       if r1 = .norm then
-        let (env2, tr2, r2) ← exec M n f env1 cont
+        let (env2, tr2, r2) ← exec M n fns w f room o env1 cont
         if r2 = .norm then
-          let (env3, tr3, r3) ← exec M n f env2 (.loop c body cont k)
+          let (env3, tr3, r3) ← exec M n fns w f room o env2 (.loop c body cont k)
           pure (env3, tr1 ++ tr2 ++ tr3, r3)
         else pure (env2, tr1 ++ tr2, r2)
       else pure (env1, tr1, r1)
-  | _ + 1, env, .defeat _ => some (env, [], .defeat)
-  | f + 1, env, .defeatIf c k =>
+  | _ + 1, _, _, env, .defeat _ => some (env, [], .defeat)
+  | f + 1, room, o, env, .defeatIf c k =>
     match evalB M n env c with
     | none => some (env, [], .div0)
     | some true => some (env, [], .defeat)
-    | some false => exec M n f env k
-  | f + 1, env, .tryUndo body handler k => do
-    let (env1, tr1, r1) ← exec M n f env body
+    | some false => exec M n fns w f room o env k
+  | f + 1, room, o, env, .tryUndo body handler k => do
+    let (env1, tr1, r1) ← exec M n fns w f room o env body
     if r1 = .defeat then
       -- the try body is never run: the handler starts from the state before the try
-      let (env2, tr2, r2) ← exec M n f env handler
+      let (env2, tr2, r2) ← exec M n fns w f room o env handler
       if r2 = .norm then
-        let (env3, tr3, r3) ← exec M n f env2 k
+        let (env3, tr3, r3) ← exec M n fns w f room o env2 k
         pure (env3, tr2 ++ tr3, r3)
       else pure (env2, tr2, r2)
     else if r1 = .norm then
-      let (env3, tr3, r3) ← exec M n f env1 k
+      let (env3, tr3, r3) ← exec M n fns w f room o env1 k
       pure (env3, tr1 ++ tr3, r3)
     else pure (env1, tr1, r1)
+  | _ + 1, _, _, env, .retE e =>
+    match evalE M n env e with
+    | none => some (env, [], .div0)
+    | some v => some (env, [], .retv v)
+  | f + 1, room, o, env, .callS g args k =>
+    match callWith M n fns w (exec M n fns w f) room o env g args with
+    | none => none
+    | some (trc, true, _) => some (env, trc, .div0)
+    | some (trc, false, _) => do
+      let (env', tr, r) ← exec M n fns w f room o env k
+      pure (env', trc ++ tr, r)
+  | f + 1, room, o, env, .declCall x g args k =>
+    match callWith M n fns w (exec M n fns w f) room o env g args with
+    | none => none
+    | some (trc, true, _) => some (env, trc, .div0)
+    | some (_, false, none) => none
+    | some (trc, false, some v) => do
+      let (env', tr, r) ← exec M n fns w f room (o + w) (upd env x v) k
+      pure (env', trc ++ tr, r)
+  | f + 1, room, o, env, .assignCall x g args k =>
+    match callWith M n fns w (exec M n fns w f) room o env g args with
+    | none => none
+    | some (trc, true, _) => some (env, trc, .div0)
+    | some (_, false, none) => none
+    | some (trc, false, some v) => do
+      let (env', tr, r) ← exec M n fns w f room o (upd env x v) k
+      pure (env', trc ++ tr, r)
 
 /-- the environment the entry point starts in: its parameters bound to the arguments -/
-def argEnv (M : Nat) : List String → List Int → Env
-  | x :: xs, a :: as => upd (argEnv M xs as) x (wrapI M a)
-  | _, _ => fun _ => 0
+def argEnv (M : Nat) (params : List String) (args : List Int) : Env := bindEnv params (args.map (wrapI M))
 
 /-- observable behaviour of a core program: output events followed by the terminal flags -/
-def runCore (w fuel : Nat) (params : List String) (args : List Int) (body : S) : Option (List Ev) :=
-  match exec (256 ^ w) (8 * w) fuel (argEnv (256 ^ w) params args) body with
+def runCore (cf : Config) (fuel : Nat) (args : List Int) (pr : CProg) : Option (List Ev) :=
+  let room := cf.stackWords * cf.w + args.length * cf.w + cf.w
+  if room < pkS cf.w (entryOff cf.w pr.params) pr.body then
+    (if cf.checked then some [Ev.flag "stack_overflow", Ev.flag "error"] else none) else
+  match exec (256 ^ cf.w) (8 * cf.w) pr.funs cf.w fuel room (entryOff cf.w pr.params)
+      (argEnv (256 ^ cf.w) pr.params args) pr.body with
   | none => none
   | some (_, tr, .div0) => some (tr ++ [Ev.flag "division_by_zero", Ev.flag "error"])
   | some (_, tr, .defeat) => some tr
@@ -579,41 +743,89 @@ partial def toB : Hid.Expr → Option B
   | _ => none
 
 open HidVerif.Hid in
-/-- statement lists of the core (only `int` locals are admitted) -/
-partial def toS : List Hid.Stmt → Option S
+/-- statement lists of the core (only `int` locals are admitted); `fns` are the user functions that may be called -/
+partial def toS (fns : List String) : List Hid.Stmt → Option S
   | [] => some .nil
   | .ret none :: _ => some .ret
-  | .decl x .int init :: k => do pure (.decl x (← toE init) (← toS k))
-  | .assign (.var x) rhs :: k => do pure (.assign x (← toE rhs) (← toS k))
+  | .ret (some e) :: _ => do pure (.retE (← toE e))
+  | .decl x .int (.call g ptys args) :: k =>
+    if fns.contains g && ptys.all (· == .int) then do pure (.declCall x g (← args.mapM toE) (← toS fns k)) else none
+  | .decl x .int init :: k => do pure (.decl x (← toE init) (← toS fns k))
+  | .assign (.var x) (.call g ptys args) :: k =>
+    if fns.contains g && ptys.all (· == .int) then do pure (.assignCall x g (← args.mapM toE) (← toS fns k)) else none
+  | .assign (.var x) rhs :: k => do pure (.assign x (← toE rhs) (← toS fns k))
   | .incassign (.var x) rhs op .int :: k => do
     let op ← match op with
       | .add => some AOp.add | .sub => some .sub | .mul => some .mul | .div => some .div | .mod => some .mod
       | _ => none
-    pure (.assign x (.bin op (.var x) (← toE rhs)) (← toS k))
-  | .expr (.call "write" [.int] [e]) :: k => do pure (.write (← toE e) (← toS k))
-  | .expr (.call "write" [.byte] [.lit .byte c]) :: k => do pure (.putc c.toNat (← toS k))
-  | .expr (.call "writeln" [.int] [e]) :: k => do pure (.writeln (some (← toE e)) (← toS k))
-  | .expr (.call "writeln" [] []) :: k => do pure (.writeln none (← toS k))
-  | .expr (.call "writeln" [.byte] [.lit .byte c]) :: k => do pure (.putc c.toNat (.writeln none (← toS k)))
-  | .block ss :: k => do pure (.block (← toS ss) (← toS k))
-  | .ifb c (.block t) (.block e) :: k => do pure (.ifb (← toB c) (← toS t) (← toS e) (← toS k))
-  | .loop c (.block body) (.block cont) :: k => do pure (.loop (← toB c) (← toS body) (← toS cont) (← toS k))
-  | .expr (.call "!is_defeat" [] []) :: k => do pure (.defeat (← toS k))
+    pure (.assign x (.bin op (.var x) (← toE rhs)) (← toS fns k))
+  | .expr (.call "write" [.int] [e]) :: k => do pure (.write (← toE e) (← toS fns k))
+  | .expr (.call "write" [.byte] [.lit .byte c]) :: k => do pure (.putc c.toNat (← toS fns k))
+  | .expr (.call "writeln" [.int] [e]) :: k => do pure (.writeln (some (← toE e)) (← toS fns k))
+  | .expr (.call "writeln" [] []) :: k => do pure (.writeln none (← toS fns k))
+  | .expr (.call "writeln" [.byte] [.lit .byte c]) :: k => do pure (.putc c.toNat (.writeln none (← toS fns k)))
+  | .expr (.call "!is_defeat" [] []) :: k => do pure (.defeat (← toS fns k))
   | .expr (.call "!truth_is_defeat" [.bool] [c]) :: k => do
     let c ← toB c
-    if isD c then pure (.defeatIf c (← toS k)) else none
-  | .tryb (.block body) .undo (.block handler) :: k => do pure (.tryUndo (← toS body) (← toS handler) (← toS k))
+    if isD c then pure (.defeatIf c (← toS fns k)) else none
+  | .expr (.call g ptys args) :: k =>
+    if fns.contains g && ptys.all (· == .int) then do pure (.callS g (← args.mapM toE) (← toS fns k)) else none
+  | .block ss :: k => do pure (.block (← toS fns ss) (← toS fns k))
+  | .ifb c (.block t) (.block e) :: k => do pure (.ifb (← toB c) (← toS fns t) (← toS fns e) (← toS fns k))
+  | .loop c (.block body) (.block cont) :: k => do pure (.loop (← toB c) (← toS fns body) (← toS fns cont) (← toS fns k))
+  | .tryb (.block body) .undo (.block handler) :: k => do
+    pure (.tryUndo (← toS fns body) (← toS fns handler) (← toS fns k))
   | _ => none
 
-def fromAst (p : Hid.Program) : Option (List String × S) :=
-  match p.globals, p.funcs with
-  | [], [f] =>
-    if f.name == "@is_you" && f.ret == .empty && f.params.all (fun q => q.2 == .int) && !f.preemptive then
+/-- the functions called in a statement list, in the order in which code generation meets the calls -/
+def callsOf : S → List String
+  | .nil => [] | .ret => [] | .retE _ => []
+  | .decl _ _ k => callsOf k | .assign _ _ k => callsOf k | .write _ k => callsOf k | .writeln _ k => callsOf k
+  | .putc _ k => callsOf k
+  | .block b k => callsOf b ++ callsOf k
+  | .ifb _ t e k => callsOf t ++ callsOf e ++ callsOf k
+  | .loop _ body cont k => callsOf body ++ callsOf cont ++ callsOf k
+  | .defeat k => callsOf k | .defeatIf _ k => callsOf k
+  | .tryUndo b h k => callsOf b ++ callsOf h ++ callsOf k
+  | .callS g _ k => g :: callsOf k | .declCall _ g _ k => g :: callsOf k | .assignCall _ g _ k => g :: callsOf k
+
+/-- `hidc` emits a function when it is first referenced (a FIFO work list starting at `@is_you`) -/
+partial def emitOrder (all : List FDecl) (queue seen : List String) (acc : List FDecl) : List FDecl :=
+  match queue with
+  | [] => acc.reverse
+  | g :: rest =>
+    match all.find? (fun fd => fd.name == g) with
+    | none => emitOrder all rest seen acc
+    | some fd =>
+      let new := (callsOf fd.body).foldl (fun l h => if seen.contains h || l.contains h then l else l ++ [h]) []
+      emitOrder all (rest ++ new) (seen ++ new) (fd :: acc)
+
+def fromAst (p : Hid.Program) : Option CProg :=
+  if !p.globals.isEmpty then none else
+  let names := (p.funcs.filter (fun f => f.name != "@is_you")).map (·.name)
+  let conv (f : Hid.Func) : Option FDecl :=
+    if (f.ret == .empty || f.ret == .int) && f.params.all (fun q => q.2 == .int) && !f.preemptive
+        && !(f.name.startsWith "@") && !(f.name.startsWith "!") then
       match f.body with
-      | .block ss => (toS ss).map (fun b => (f.params.map (·.1), b))
+      | .block ss => (toS names ss).map (fun b => { name := f.name, params := f.params.map (·.1), body := b })
       | _ => none
     else none
-  | _, _ => none
+  match p.funcs.find? (fun f => f.name == "@is_you") with
+  | none => none
+  | some e =>
+    if e.ret == .empty && e.params.all (fun q => q.2 == .int) && !e.preemptive then
+      match e.body with
+      | .block ss => do
+        let body ← toS names ss
+        -- only functions reachable from the entry point are emitted (and need to be in the core)
+        let others := p.funcs.filter (fun f => f.name != "@is_you")
+        let reach := (emitOrder (others.filterMap (fun f => conv f <|> some { name := f.name, params := [], body := .nil }))
+                        (callsOf body |>.foldl (fun l h => if l.contains h then l else l ++ [h]) [])
+                        (callsOf body) []).map (·.name)
+        let funs ← reach.mapM (fun g => (others.find? (fun f => f.name == g)).bind conv)
+        pure { params := e.params.map (·.1), body := body, funs := funs }
+      | _ => none
+    else none
 
 /-! ## well-formedness assumed by the theorems (decidable; guaranteed by the front end, and
 re-checked by `hidmodel` on every program of the correspondence suite) -/
@@ -647,6 +859,10 @@ def wfS : List String → S → Bool
   | Γ, .defeat k => wfS Γ k
   | Γ, .defeatIf c k => boundB Γ c && isD c && wfS Γ k
   | Γ, .tryUndo body handler k => wfS Γ body && wfS Γ handler && wfS Γ k
+  | Γ, .retE e => boundE Γ e
+  | Γ, .callS _ args k => args.all (boundE Γ) && wfS Γ k
+  | Γ, .declCall x _ args k => args.all (boundE Γ) && !Γ.contains x && wfS (x :: Γ) k
+  | Γ, .assignCall x _ args k => Γ.contains x && args.all (boundE Γ) && wfS Γ k
 
 /-- no `try` inside (the body of a `try` is a defeat context, where `try` is not allowed) -/
 def noTry : S → Bool
@@ -658,6 +874,8 @@ def noTry : S → Bool
   | .loop _ body cont k => noTry body && noTry cont && noTry k
   | .defeat k => noTry k | .defeatIf _ k => noTry k
   | .tryUndo _ _ _ => false
+  | .retE _ => true
+  | .callS _ _ k => noTry k | .declCall _ _ _ k => noTry k | .assignCall _ _ _ k => noTry k
 
 /-- neither `try` nor defeat calls -/
 def plain : S → Bool
@@ -669,6 +887,8 @@ def plain : S → Bool
   | .loop _ body cont k => plain body && plain cont && plain k
   | .defeat _ => false | .defeatIf _ _ => false
   | .tryUndo _ _ _ => false
+  | .retE _ => true
+  | .callS _ _ k => plain k | .declCall _ _ _ k => plain k | .assignCall _ _ _ k => plain k
 
 /-- the flavour rules on core programs (guaranteed by the parser, C06): at the level of the you
 function defeat calls occur only inside `try` bodies, `try` is not nested, handlers are plain -/
@@ -681,5 +901,43 @@ def youLevel : S → Bool
   | .loop _ body cont k => youLevel body && youLevel cont && youLevel k
   | .defeat _ => false | .defeatIf _ _ => false
   | .tryUndo body handler k => noTry body && plain handler && youLevel k
+  | .retE _ => true
+  | .callS _ _ k => youLevel k | .declCall _ _ _ k => youLevel k | .assignCall _ _ _ k => youLevel k
+
+/-- control never falls off the end of the list (the front end appends `return;` to every `void`
+function that could, and rejects the others: `FuncDefinition.evaluate`) -/
+def noFall : S → Bool
+  | .nil => false | .ret => true | .retE _ => true
+  | .decl _ _ k => noFall k | .assign _ _ k => noFall k | .write _ k => noFall k
+  | .writeln _ k => noFall k | .putc _ k => noFall k
+  | .block b k => noFall b || noFall k
+  | .ifb _ t e k => (noFall t && noFall e) || noFall k
+  | .loop _ _ _ k => noFall k
+  | .defeat _ => true | .defeatIf _ k => noFall k
+  | .tryUndo b h k => (noFall b && noFall h) || noFall k
+  | .callS _ _ k => noFall k | .declCall _ _ _ k => noFall k | .assignCall _ _ _ k => noFall k
+
+/-- every call names a function of the table with the right number of arguments -/
+def callsOK (fns : List FDecl) : S → Bool
+  | .nil => true | .ret => true | .retE _ => true
+  | .decl _ _ k => callsOK fns k | .assign _ _ k => callsOK fns k | .write _ k => callsOK fns k
+  | .writeln _ k => callsOK fns k | .putc _ k => callsOK fns k
+  | .block b k => callsOK fns b && callsOK fns k
+  | .ifb _ t e k => callsOK fns t && callsOK fns e && callsOK fns k
+  | .loop _ body cont k => callsOK fns body && callsOK fns cont && callsOK fns k
+  | .defeat k => callsOK fns k | .defeatIf _ k => callsOK fns k
+  | .tryUndo b h k => callsOK fns b && callsOK fns h && callsOK fns k
+  | .callS g args k =>
+    (match fns.find? (fun fd => fd.name == g) with | some fd => fd.params.length == args.length | none => false) && callsOK fns k
+  | .declCall _ g args k =>
+    (match fns.find? (fun fd => fd.name == g) with | some fd => fd.params.length == args.length | none => false) && callsOK fns k
+  | .assignCall _ g args k =>
+    (match fns.find? (fun fd => fd.name == g) with | some fd => fd.params.length == args.length | none => false) && callsOK fns k
+
+/-- the static conditions the theorems assume of a program (all guaranteed by the front end) -/
+def wfProg (pr : CProg) : Bool :=
+  pr.params.Nodup && wfS pr.params pr.body && youLevel pr.body && noFall pr.body && callsOK pr.funs pr.body &&
+  (pr.funs.map (·.name)).Nodup &&
+  pr.funs.all (fun fd => fd.params.Nodup && wfS fd.params fd.body && plain fd.body && callsOK pr.funs fd.body)
 
 end HidVerif.Core
